@@ -1459,10 +1459,288 @@ def projest_judge(ck, p, res):
     return False
 
 
+# ================================================================================== fourth engine: AtlasStateSpace::chartPDF_
+# AtlasStateSpace (an anchored user of PDF) refreshes neighbour weights BY POSITION
+# (`chartPDF_.update(chartPDF_.getElements()[near.second], biasFunction_(other))`) and then adds the new chart: it relies on
+# "element k of chartPDF_ is chart k".  The harness drives the real atlas with a scripted bias function and dumps chartPDF_
+# after every op; the oracle recomputes every weight from the recorded bias calls; the PDF model (drv_pdf) is run on the
+# add/update protocol the recorded calls imply (add when the chart is new, update-by-index otherwise: the model
+# OmplModel.Model.AtlasPdf, theorem atlas_pdf_index_is_chart_index) and must reproduce the dumped PDF bit for bit.
+def build_atlas(ck):
+    return ck.build_harness("atlas", ["atlas.cpp"], link_ompl=True)
+
+
+def atlas_point(kind, a, b):
+    if kind == "sphere":
+        return [math.sin(a) * math.cos(b), math.sin(a) * math.sin(b), math.cos(a)]
+    q = 2.0 + math.cos(a)
+    return [q * math.cos(b), q * math.sin(b), math.sin(a)]
+
+
+def gen_atlas_script(r, i, quick=True):
+    kind = r.choice(["sphere", "sphere", "torus"])
+    sep = 1 if r.chance(5, 6) else 0
+    L = ["atlas %s sep=%d seed=%d" % (kind, sep, r.below(100000))]
+    params = []          # chart origins as manifold parameters (a, b)
+
+    def bias_line():
+        k = r.below(8)
+        if k == 0:
+            return "bias const " + B(r.choice([1.0, 0.0, 0.5, 3.0]))
+        if k in (1, 2):
+            return "bias dist0"
+        if k == 3:
+            return "bias nbr"
+        if k == 4:
+            return "bias frontier"
+        n = r.range(1, 7)
+        vals = [r.choice([0.0, 0.0, 1.0, 2.0, 0.25, 0.1, 1e-3, 7.0, r.unit()]) for _ in range(n)]
+        return "bias table %d %s" % (n, " ".join(map(B, vals)))
+
+    def fresh():
+        if params and r.chance(4, 5):      # near an existing chart: inside the 2*rho_s neighbourhood
+            a, b = r.choice(params)
+            d = r.uniform(0.12, 0.45)
+            ang = r.uniform(0, 2 * math.pi)
+            p = (a + d * math.cos(ang), b + d * math.sin(ang) / max(0.3, abs(math.sin(a))) if kind == "sphere" else b + d * math.sin(ang) / 2.0)
+        else:
+            p = (r.uniform(0.3, 2.8), r.uniform(-3.0, 3.0)) if kind == "sphere" else (r.uniform(-3.0, 3.0), r.uniform(-3.0, 3.0))
+        params.append(p)
+        return " ".join(map(B, atlas_point(kind, *p)))
+
+    L.append(bias_line())
+    for _ in range(r.range(1, 3)):
+        L.append("anchor " + fresh())
+    nops = r.choice([4, 10, 25] if quick else [10, 40, 120])
+    for _ in range(nops):
+        k = r.below(100)
+        if k < 45:
+            L.append("new " + fresh())
+        elif k < 60:
+            L.append("get " + fresh())
+        elif k < 68 and len(params) >= 2:
+            a, b_ = r.choice(params), r.choice(params)
+            L.append("geo %s %s" % (" ".join(map(B, atlas_point(kind, *a))), " ".join(map(B, atlas_point(kind, *b_)))))
+        elif k < 80:
+            L.append("smp")
+        elif k < 86:
+            L.append("smpn %d" % (600 if quick else 20000))
+        elif k < 94:
+            L.append(bias_line())
+        elif k < 97:
+            L.append("clear")
+            params[:] = params[:1]      # hint only
+        else:
+            L.append("smp")
+    L.append("smpn %d" % (1500 if quick else 40000))
+    return L
+
+
+def atlas_parse(o):
+    parts = o.split(" | ")
+    if len(parts) != 4:
+        return None
+    res, ch, pdf, calls = parts
+    d = {"res": res}
+    ct = ch.split()
+    d["charts"] = int(ct[0].split("=")[1])
+    t = pdf.split()[1:]
+    d["n"] = int(t[0][2:])
+    d["ord"] = [x for x in t[1][4:].split(",") if x]
+    d["ix"] = [x for x in t[2][3:].split(",") if x]
+    nrows = int(t[3][5:])
+    d["rows"] = []
+    for tok in t[4:4 + nrows]:
+        ln, _, vals = tok[1:-1].partition(":")
+        d["rows"].append([int(v) for v in vals.split(",") if v])
+    d["pdfline"] = "n=%d ix=%s rows=%d %s" % (d["n"], t[2][3:], nrows, " ".join(t[4:4 + nrows]))
+    d["calls"] = []
+    cs = calls[len("calls="):]
+    for c in [x for x in cs.split(";") if x]:
+        i_, _, v = c.partition(":")
+        d["calls"].append((int(i_), int(v)))
+    return d
+
+
+def atlas_oracle(script, out, rc=0, err=""):
+    """chartPDF_ must mirror the chart list: one element per chart, element k carries chart k (the position addressing the
+    code relies on), the weight of element k = the bias value most recently computed for chart k, inner rows = sums,
+    sampleChart returns a chart of positive weight and (smpn) follows the weights.  Returns (failure | None, derived pdf
+    script, expected model dumps index)."""
+    weights = {}            # chart id -> bits of the last bias value computed for it
+    pdfops = ["pdf"]        # the add / update-by-index protocol the recorded calls imply
+    marks = []              # (output line index, number of pdf ops so far)
+    size = 0
+    base = 0                # handles of the PDF model are numbered by creation over the whole script
+    nadds = 0
+    hist = 0.0              # largest total of |weights| since the PDF was last cleared (scale of the incremental sums' drift)
+    for i, line in enumerate(script[1:]):
+        if i >= len(out):
+            tail = " ".join((err or "").strip().splitlines()[-6:])[-500:]
+            return (i, "implementation stopped at %r (exit %s): %s" % (line, rc, tail), "crash"), pdfops, marks
+        o = out[i]
+        if o == "bad-op":
+            return (i, "bad-op on a well-formed line", "spec"), pdfops, marks
+        d = atlas_parse(o)
+        if d is None:
+            return (i, "unparsable output line", "spec"), pdfops, marks
+        op = line.split()[0]
+        if op == "clear":
+            weights, size = {}, 0
+            hist = 0.0
+            base = nadds
+            pdfops.append("clear")
+        for cid, vb in d["calls"]:
+            if cid < 0:
+                return (i, "the bias function was called for a chart that is not in the chart list", "spec"), pdfops, marks
+            weights[cid] = vb
+            if cid >= size:          # a new chart: newChart adds it
+                pdfops.append("add %d" % vb)
+                nadds += 1
+                size = cid + 1
+            else:                    # neighbour refresh, addressed by chart index
+                pdfops.append("upd %d %d" % (base + cid, vb))
+        marks.append((i, len(pdfops) - 1))
+        hist = max(hist, sum(abs(F(str(v))) for v in weights.values()))
+        n = d["charts"]
+        if d["n"] != n:
+            return (i, "the atlas has %d charts but chartPDF_ has %d elements" % (n, d["n"]), "spec"), pdfops, marks
+        if d["ord"] != [str(k) for k in range(n)]:
+            return (i, "element k of chartPDF_ is not chart k: payload order %s" % ",".join(d["ord"]), "spec"), pdfops, marks
+        if d["ix"] != [str(k) for k in range(n)]:
+            return (i, "chartPDF_ index_ fields out of sync: %s" % ",".join(d["ix"]), "spec"), pdfops, marks
+        if n:
+            want = [n]
+            while want[-1] > 1:
+                want.append((want[-1] + 1) // 2)
+            if [len(rw) for rw in d["rows"]] != want:
+                return (i, "chartPDF_ row sizes %s, expected %s" % ([len(rw) for rw in d["rows"]], want), "spec"), pdfops, marks
+            for k in range(n):
+                if k not in weights:
+                    return (i, "chart %d is in the PDF but the bias function was never called for it" % k, "spec"), pdfops, marks
+                if d["rows"][0][k] != weights[k]:
+                    return (i, "chart %d: weight in chartPDF_ is %r but the bias most recently computed for it is %r"
+                            % (k, F(str(d["rows"][0][k])), F(str(weights[k]))), "spec"), pdfops, marks
+            for lvl in range(1, len(d["rows"])):
+                for j, vb in enumerate(d["rows"][lvl]):
+                    ch = [F(str(x)) for x in d["rows"][lvl - 1][2 * j:2 * j + 2]]
+                    v = F(str(vb))
+                    if not abs(v - sum(ch)) <= 1e-9 * hist + 5e-324:
+                        return (i, "chartPDF_ cell row %d col %d = %r but its children sum to %r" % (lvl, j, v, sum(ch)), "spec"), pdfops, marks
+        ws = [F(str(weights[k])) for k in range(n)]
+        tot = sum(ws)
+        if op == "smp":
+            if n == 0:
+                if d["res"] != "err-empty":
+                    return (i, "sampleChart on an atlas without charts returned %s" % d["res"], "spec"), pdfops, marks
+            else:
+                if not d["res"].startswith("id=") or not d["res"][3:].lstrip("-").isdigit() or not 0 <= int(d["res"][3:]) < n:
+                    return (i, "sampleChart returned %r although the atlas has %d charts" % (d["res"], n), "spec"), pdfops, marks
+                if tot > 0 and ws[int(d["res"][3:])] == 0:
+                    return (i, "sampleChart drew chart %s whose bias is 0" % d["res"][3:], "spec"), pdfops, marks
+        if op == "smpn" and n > 0:
+            if not d["res"].startswith("counts="):
+                return (i, "sampleChart failed: %s" % d["res"], "spec"), pdfops, marks
+            cnt = [int(x) for x in d["res"].split()[0][7:].split(",") if x]
+            N = int(line.split()[1])
+            if sum(cnt) != N or len(cnt) != n:
+                return (i, "sampleChart returned charts outside the chart list", "spec"), pdfops, marks
+            if tot > 0:
+                for k in range(n):
+                    pk = ws[k] / tot
+                    sd = math.sqrt(max(pk * (1 - pk), 0.0) / N)
+                    if ws[k] == 0 and cnt[k]:
+                        return (i, "sampleChart drew chart %d (bias 0) %d times" % (k, cnt[k]), "spec"), pdfops, marks
+                    if abs(cnt[k] / float(N) - pk) > 6 * sd + 2.0 / N:
+                        return (i, "chart %d is drawn with frequency %.4f, its bias calls for %.4f (N=%d)" % (k, cnt[k] / float(N), pk, N),
+                                "spec"), pdfops, marks
+    if rc != 0:
+        return (len(script) - 1, "harness exit code %s: %s" % (rc, (err or "")[-300:]), "crash"), pdfops, marks
+    return None, pdfops, marks
+
+
+def atlas_one(ck, hbin, script):
+    impl, rc, err = ck.run_bin(hbin, script, timeout=300)
+    impl = impl or []
+    fail, pdfops, marks = atlas_oracle(script, impl, rc, err)
+    tie = None
+    if fail is None:
+        model, rc2, err2 = ck.run_bin(ck.driver(DRIVER), pdfops)
+        for (i, k) in marks:
+            if k == 0:
+                continue
+            d = atlas_parse(impl[i])
+            got = model[k - 1].partition(" | ")[2] if k - 1 < len(model) else "<missing>"
+            gt = got.split()
+            got = " ".join(gt[:1] + gt[2:])     # the model prints handles (numbered over the whole script) in ord=: compared by the oracle instead
+            if got != d["pdfline"] or model[k - 1].startswith(("dead", "bad-op", "err")):
+                tie = (i, "chartPDF_ after %r differs from the PDF model run on the add/update-by-index protocol of the recorded "
+                          "bias calls: impl %s | model %s" % (script[1 + i], d["pdfline"][:200], got[:200]))
+                break
+    return fail, tie, impl, pdfops
+
+
+def atlas_jobs(ck):
+    n = 40 if ck.tier == "quick" else 300
+    r = ck.rng.fork("atlas")
+    out = [("corpus", s_) for _, s_ in corpus_dir("atlas")]
+    return out + [("random", gen_atlas_script(r.fork("a%d" % i), i, ck.tier == "quick")) for i in range(n)]
+
+
+def atlas_judge(ck, hbin, tag, script, res):
+    fail, tie, impl, pdfops = res
+    ck.traces_validated += 1
+    nch = 0
+    for o in impl[-1:]:
+        d = atlas_parse(o)
+        if d:
+            nch = d["charts"]
+    ck.case(("atlas", tuple(script)), nch >= 3)
+    ck.count("atlas:scripts:" + tag)
+    ck.count("atlas:charts", nch)
+    ck.count("atlas:pdf-ops-implied", len(pdfops) - 1)
+    for ln in script[1:]:
+        ck.count("atlas:op:" + ln.split()[0])
+    ck.sample({"engine": "atlas", "script": script[:6] + ["…(%d more lines)" % (len(script) - 6)]})
+    if fail is not None:
+        kind = fail[2]
+
+        def still(lines):
+            s_ = [script[0]] + lines
+            o, r_, e = ck.run_bin(hbin, s_, timeout=300)
+            f, _, _ = atlas_oracle(s_, o or [], r_, e)
+            return f is not None and f[2] == kind
+        small = [script[0]] + core.ddmin(script[1:], still, max_tests=150)
+        o, r_, e = ck.run_bin(hbin, small, timeout=300)
+        f, _, _ = atlas_oracle(small, o or [], r_, e)
+        f = f or fail
+        ck.report({"engine": "atlas", "kind": f[2], "what": f[1]}, script=small, expected=None, observed=(o or [])[-4:], engine="atlas")
+        ck.log("Atlas chart-PDF property failure: %s (script of %d ops after shrinking)" % (f[1][:300], len(small) - 1))
+        return False
+    if tie is not None:
+        ck.disagreements += 1
+        ck.report({"engine": "atlas", "what": "chartPDF_ vs PDF model"}, script=script, expected=None, observed=[tie[1]], found_input=False,
+                  engine="atlas", obligation="correspondence atlas: AtlasStateSpace::newChart's PDF protocol vs OmplModel.Model.AtlasPdf / Pdf (%s)" % tie[1][:300])
+        ck.log("Atlas correspondence: %s" % tie[1][:300])
+        return False
+    return True
+
+
+def corpus_dir(sub):
+    d = os.path.join(core.VERIF, "corpus", "C12", sub)
+    out = []
+    if os.path.isdir(d):
+        for f in sorted(os.listdir(d)):
+            if f.endswith(".txt"):
+                out.append((f, [l.rstrip("\n") for l in open(os.path.join(d, f)) if l.strip() and not l.startswith("#")]))
+    return out
+
+
 def setup(ck):
     build(ck)
     build_est(ck)
     build_projest(ck)
+    build_atlas(ck)
 
 
 def plan(ck):
@@ -1519,15 +1797,18 @@ def run(ck):
     hbin = build(ck)
     ebin = build_est(ck)
     pbin = build_projest(ck)
+    abin = build_atlas(ck)
     if not ck.lean_ok:
         return 0
     scripts = plan(ck)
     ejobs = est_jobs(ck)
     pjobs = projest_jobs(ck)
+    ajobs = atlas_jobs(ck)
     bad = 0
     with ThreadPoolExecutor(max_workers=14) as ex:
         eres = [ex.submit(est_one, ck, ebin, p) for p in ejobs]
         pres = [ex.submit(projest_one, ck, pbin, p) for p in pjobs]
+        ares = [ex.submit(atlas_one, ck, abin, sc_) for _, sc_ in ajobs]
         results = ex.map(lambda ts: run_script(ck, hbin, ts[1]), scripts)
         for (tag, script), res in zip(scripts, results):
             if bad >= 3:
@@ -1548,10 +1829,32 @@ def run(ck):
                 continue
             if not projest_judge(ck, p, fut.result()):
                 pbad += 1
+        abad = 0
+        for (tag, sc_), fut in zip(ajobs, ares):
+            if abad >= 3:
+                fut.cancel()
+                continue
+            if not atlas_judge(ck, abin, tag, sc_, fut.result()):
+                abad += 1
     return 0
 
 
 def replay(ck, data):
+    if data.get("engine") == "atlas":
+        abin = build_atlas(ck)
+        ck.lean_build([DRIVER])
+        script = data["script"]
+        fail, tie, impl, pdfops = atlas_one(ck, abin, script)
+        for i, ln in enumerate(script[1:]):
+            print("%-30s impl: %s" % (ln[:30], (impl[i] if i < len(impl) else "<missing>")[:300]))
+        if fail:
+            print("PROPERTY FAILS at op %d: %s" % (fail[0], fail[1]))
+            return 1
+        if tie:
+            print(tie[1])
+            return 1
+        print("no failure on the current tree")
+        return 0
     if data.get("engine") in ("est", "projest"):
         if data["engine"] == "est":
             ebin = build_est(ck)
